@@ -325,6 +325,192 @@ func checkC06(c *Ctx) {
 	r.Explanation = "Decides two clauses of C06 as structural necessary conditions (all histories at once): WH-empty — a Write with nothing pending puts nothing on the stream (needed because the reader is sequential and Footer drops empty row groups but not their bytes): every sink-touching call site reachable from ParquetWriter.Write is guarded by a test that rows are pending; WH-rows — the file-level row count is computed from the row groups actually emitted, not from a counter advanced at Add time. Everything else about histories (exact-multiple batches, one row group per batch, ordering) is a model-exploration problem and is NOT decided."
 	runWHEmpty(c, "WH-empty")
 	runWHRows(c, "WH-rows")
+	runWHReset(c, "WH-reset")
 	r.floor("WH-empty", len(c.U.TC), "one ParquetWriter.Write per generated package")
 	r.assume("the reader is sequential from byte 4 (never seeks to chunk offsets) — read from the template, see DESIGN.md §0")
+}
+
+// --- WH-reset: Write returns the writer to its per-batch initial state ---
+//
+// Every field of the writer's object graph that Add can modify (the ParquetWriter's own fields, each column object's
+// value/level slices, the per-page statistics) is re-initialised by Write: either stored by Write / by the methods of
+// that column type that Write invokes, or the object holding it is allocated afresh. A field that Add advances and
+// Write leaves alone carries state from one batch into the next (stale levels, rows routed to a page that is never
+// written). Fields that are never read (dead counters) are exempt.
+
+type fieldSet map[*types.Var]bool
+
+// structFields: all fields of a struct type, including those of by-value nested structs.
+func structFields(t types.Type, into fieldSet) {
+	st, ok := t.Underlying().(*types.Struct)
+	if !ok {
+		return
+	}
+	for i := 0; i < st.NumFields(); i++ {
+		f := st.Field(i)
+		into[f] = true
+		if _, isStruct := f.Type().Underlying().(*types.Struct); isStruct {
+			structFields(f.Type(), into)
+		}
+	}
+}
+
+// storesAndFresh: fields stored through a non-fresh base, and fields of structs allocated afresh, in the given functions.
+func storesAndFresh(fns map[*ssa.Function]bool) (stored, fresh fieldSet, where map[*types.Var]string, u2 *Universe) { //nolint
+	stored, fresh, where = fieldSet{}, fieldSet{}, map[*types.Var]string{}
+	for f := range fns {
+		for _, b := range f.Blocks {
+			for _, ins := range b.Instrs {
+				switch x := ins.(type) {
+				case *ssa.Store:
+					fa, ok := x.Addr.(*ssa.FieldAddr)
+					if !ok {
+						continue
+					}
+					fld := fieldOf(fa)
+					if _, isFresh := fa.X.(*ssa.Alloc); isFresh {
+						continue
+					}
+					stored[fld] = true
+				case *ssa.Alloc:
+					if x.Heap {
+						structFields(x.Type().(*types.Pointer).Elem(), fresh)
+					}
+				}
+			}
+		}
+	}
+	return
+}
+
+func staticReach(u *Universe, roots []*ssa.Function) map[*ssa.Function]bool {
+	seen := map[*ssa.Function]bool{}
+	var visit func(f *ssa.Function)
+	visit = func(f *ssa.Function) {
+		if f == nil || f.Blocks == nil || !u.InUniverse(f) || seen[f] {
+			return
+		}
+		seen[f] = true
+		for _, b := range f.Blocks {
+			for _, ins := range b.Instrs {
+				if call, ok := ins.(ssa.CallInstruction); ok {
+					visit(call.Common().StaticCallee())
+				}
+			}
+		}
+	}
+	for _, f := range roots {
+		visit(f)
+	}
+	return seen
+}
+
+// deadField: the field is never loaded except to compute its own next value.
+func deadField(u *Universe, fld *types.Var) bool {
+	for _, f := range u.Funcs {
+		for _, b := range f.Blocks {
+			for _, ins := range b.Instrs {
+				ld, ok := ins.(*ssa.UnOp)
+				if !ok || ld.Op != token.MUL || fieldOf(ld.X) != fld {
+					continue
+				}
+				for _, ref := range *ld.Referrers() {
+					if _, isDbg := ref.(*ssa.DebugRef); isDbg {
+						continue
+					}
+					bo, isB := ref.(*ssa.BinOp)
+					if !isB {
+						return false
+					}
+					for _, r2 := range *bo.Referrers() {
+						if st, isS := r2.(*ssa.Store); !isS || fieldOf(st.Addr) != fld {
+							if _, isDbg := r2.(*ssa.DebugRef); !isDbg {
+								return false
+							}
+						}
+					}
+				}
+			}
+		}
+	}
+	return true
+}
+
+func runWHReset(c *Ctx, rule string) {
+	r, u := c.R, c.U
+	for _, path := range u.TC {
+		short := strings.TrimPrefix(path, "uni/")
+		wr := u.Func(path, "ParquetWriter.Write")
+		add := u.Func(path, "ParquetWriter.Add")
+		if wr == nil || add == nil {
+			r.failf("%s: ParquetWriter.Write/Add missing in %s", rule, path)
+			continue
+		}
+		// writer level: the ParquetWriter's own fields
+		pw := u.SSAPkgs[path].Pkg.Scope().Lookup("ParquetWriter")
+		own := fieldSet{}
+		structFields(pw.Type(), own)
+		aSt, _, _, _ := storesAndFresh(map[*ssa.Function]bool{add: true})
+		wStatic := staticReach(u, []*ssa.Function{wr})
+		wSt, wFresh, _, _ := storesAndFresh(wStatic)
+		r.count(rule+"/writers", 1)
+		var missing []string
+		for f := range aSt {
+			if own[f] && !wSt[f] && !deadField(u, f) {
+				missing = append(missing, f.Name())
+			}
+		}
+		sort.Strings(missing)
+		key := short + ".ParquetWriter"
+		if len(missing) > 0 {
+			r.bad(rule, key, u.Pos(wr.Pos()), "Add modifies the writer field(s) "+strings.Join(missing, ", ")+" but Write never re-initialises them: state of one batch leaks into the next (rows can be routed to a page that is never written)")
+		} else {
+			r.ok(rule, key, u.Pos(wr.Pos()), "every ParquetWriter field that Add modifies is re-initialised by Write")
+		}
+		// column level
+		for _, fi := range fieldImpls(c) {
+			if fi.pkg != path || fi.add == nil {
+				continue
+			}
+			r.count(rule+"/column-types", 1)
+			aReach := u.reach([]*ssa.Function{fi.add})
+			aT, _, _, _ := storesAndFresh(aReach)
+			// methods of this type that Write invokes through the Field interface
+			var invoked []*ssa.Function
+			for _, b := range wr.Blocks {
+				for _, ins := range b.Instrs {
+					call, ok := ins.(ssa.CallInstruction)
+					if !ok || !call.Common().IsInvoke() {
+						continue
+					}
+					if m := u.Func(path, fi.name+"."+call.Common().Method.Name()); m != nil {
+						invoked = append(invoked, m)
+					}
+				}
+			}
+			wT, wTFresh, _, _ := storesAndFresh(u.reach(invoked))
+			var miss []string
+			for f := range aT {
+				if wT[f] || wTFresh[f] || wFresh[f] || wSt[f] {
+					continue
+				}
+				// only state of the column object graph: the column type, embedded runtime field structs, its stats type
+				if deadField(u, f) {
+					continue
+				}
+				if f.Pkg() != nil && (f.Pkg().Path() == path || f.Pkg().Path() == rtPath) {
+					miss = append(miss, f.Name())
+				}
+			}
+			sort.Strings(miss)
+			k := short + "." + fi.name
+			if len(miss) > 0 {
+				r.bad(rule, k, u.Pos(fi.add.Pos()), "Add modifies "+strings.Join(miss, ", ")+" of this column object, but Write neither re-creates the object nor resets these through a method it invokes: values/levels of one row group leak into the next")
+			} else {
+				r.ok(rule, k, u.Pos(fi.add.Pos()), "everything Add modifies in this column object is re-created or reset by Write")
+			}
+		}
+	}
+	r.floor(rule+"/writers", len(u.TC), "one writer per generated package")
+	r.floor(rule+"/column-types", 16, "16 column types in alltypes")
 }
